@@ -4,7 +4,10 @@ Three independent parts, none of which looks at jedi's sources or at the Lean mo
 
 * `selections(src)`        every run of 1..4 whole sibling statements of every suite of every function
                            (the function body and every nested block), as an explicit range
-                           (line, column) .. (first line after the run, 0);
+                           (line, column) .. (first line after the run, 0); every run carries what it contains
+                           (`kinds`, `inside`) and `closure`: does it bind a name that a nested def / lambda of a
+                           LATER sibling reads from its body ('only': no other read behind the run; 'also'; None) -
+                           `pick_selections` draws such runs with more weight;
 * `Runner`                 executes the entry function of the old and the new program on argument tuples and
                            records which lines of the selection each tuple executed (the oracle of c06.py
                            draws tuples until every line of the selection was executed);
@@ -46,6 +49,9 @@ call can keep them.
         statement (try body, except) as if that had certainly happened (flow_analysis.reachability_check:
         `branch_matches` of the try is overwritten by that of the enclosing flow statement), the value
         from before the selection is not a parameter
+  extract-function-nested-loop-else-binding-assumed   the same blind spot for a `while` loop with an `else` clause that
+        is nested in another flow statement: a read in the else clause is resolved to a binding made directly in the
+        loop body as if the body had certainly run to that binding (`continue` / zero iterations ignored)
   extract-function-single-return-statement          the selection is exactly one `return x` line including its line
         break: _find_nodes takes `children[1]` of the simple_stmt (the newline) for the returned expression
   extract-function-no-output-variable               the selection binds no name and does not end in `return`:
@@ -66,7 +72,7 @@ import traceback
 # ------------------------------------------------------------------ selections
 
 def selections(src, max_run=4):
-    """[dict(start, until, func, kinds, depth, n, ends_return)] for every run of whole sibling statements"""
+    """[dict(start, until, func, kinds, depth, n, ends_return, closure)] for every run of whole sibling statements"""
     import parso
     mod = parso.parse(src)
     out = []
@@ -104,6 +110,34 @@ def selections(src, max_run=4):
             leaf = leaf.get_next_leaf()
         return found
 
+    def name_leaves(node, in_scope_body, out):
+        """(value, is_definition, inside the body of a nested def / lambda) of every name leaf"""
+        ch = getattr(node, 'children', None)
+        if ch is None:
+            if node.type == 'name':
+                out.append((node.value, node.is_definition(), in_scope_body))
+            return
+        if node.type == 'trailer' and ch[0] == '.':
+            return
+        for k, c in enumerate(ch):
+            name_leaves(c, in_scope_body or (node.type in ('funcdef', 'lambdef') and k == len(ch) - 1), out)
+
+    def closure_feed(run, later):
+        """does the run bind a name that a nested def / lambda of a LATER sibling reads from its body (a free
+        variable of a closure)?  'only': some such name has no other read behind the run; 'also'; None"""
+        bound = []
+        for st in run:
+            name_leaves(st, False, bound)
+        bound = {v for v, d, inner in bound if d and not inner}
+        uses = []
+        for st in later:
+            name_leaves(st, False, uses)
+        inner = {v for v, d, i in uses if not d and i} & bound
+        if not inner:
+            return None
+        direct = {v for v, d, i in uses if not d and not i}
+        return 'only' if inner - direct else 'also'
+
     def suites(node, depth, func):
         for c in getattr(node, 'children', []):
             if c.type == 'suite':
@@ -122,6 +156,7 @@ def selections(src, max_run=4):
                                     'kinds': ks, 'depth': depth, 'n': j - i + 1,
                                     'inside': inside_words(ss[i:j + 1]),
                                     'ends_return': ks[-1] == 'return',
+                                    'closure': closure_feed(ss[i:j + 1], ss[j + 1:]),
                                     'last': j == len(ss) - 1})
                 suites(c, depth + 1, func)
             elif c.type in ('funcdef', 'classdef'):
@@ -408,6 +443,8 @@ class Unbound:
         self.name = name
         self.forbody = 'forbody' in variant
         self.tryhandler = 'tryhandler' in variant
+        self.loopelse = 'loopelse' in variant
+        self.variant = tuple(variant)
         self.nested = nested
         self.at = {}
 
@@ -472,6 +509,14 @@ class Unbound:
             if self.forbody and isinstance(s, ast.For):
                 done = body_out         # the body ran, to its end
                 return self.join(self.block(s.orelse, done, jumps) if done is not None else None)
+            if self.loopelse and self.nested > 1 and s.orelse and any(
+                    isinstance(x, (ast.Assign, ast.AugAssign, ast.AnnAssign)) and self.binds(x) for x in s.body):
+                # a loop nested in another flow statement: for the reads of its else clause a binding made directly
+                # in the loop body counts as having happened; the state behind the statement stays the real one
+                self.block(s.orelse, False, {'brk': [], 'cont': []})
+                real = Unbound(self.name, self.variant, self.nested)
+                done = real.block(s.orelse, head, jumps)
+                return self.join(done, *inner['brk'])
             done = self.block(s.orelse, head, jumps)
             return self.join(done, *inner['brk'])
         if isinstance(s, ast.Try):
@@ -637,9 +682,11 @@ def analyse(src, request):
 
 # the blind spots of jedi's lookup of a plain read (flow_analysis), alone and combined; a missing parameter is
 # attributed to the first entry under which the name is no longer read before it is bound
-VARIANTS = [('forbody',), ('tryhandler',), ('forbody', 'tryhandler')]
+VARIANTS = [('forbody',), ('tryhandler',), ('loopelse',), ('forbody', 'tryhandler'),
+            ('forbody', 'tryhandler', 'loopelse')]
 VARIANT_SHAPE = {'forbody': 'extract-function-for-body-assumed-executed',
-                 'tryhandler': 'extract-function-nested-try-clause-binding-assumed'}
+                 'tryhandler': 'extract-function-nested-try-clause-binding-assumed',
+                 'loopelse': 'extract-function-nested-loop-else-binding-assumed'}
 
 
 def failing_statement(src, facts, new_code, lineno, new_name):
@@ -662,7 +709,7 @@ def failing_statement(src, facts, new_code, lineno, new_name):
     return best
 
 
-_NAME_IN_MSG = re.compile(r"(?:local variable|name) '([^']+)'")
+_NAME_IN_MSG = re.compile(r"(?:local variable|free variable|name) '([^']+)'")
 
 
 def failure_name(outcome):
@@ -789,6 +836,9 @@ def pick_selections(rng, sels, k):
                     w += 3.0        # a nested block whose run has a jump behind a loop
         if 'def' in ins or 'lambda' in ins or 'class' in ins:
             w += 1.0
+        if s.get('closure'):
+            # the run binds a free variable of a closure that is defined behind it
+            w += 6.0 if s['closure'] == 'only' else 3.0
         if s['depth'] > 0:
             w += 1.0
         if s['n'] > 1:
